@@ -328,17 +328,232 @@ theorem mkBinary_ok {env : Env} {c : Consts} {choices : List Val} {active : Opti
             have hd : (dedupPy act).length ≠ 0 := by
               intro h0
               exact dedupPy_ne_nil (by intro hh; subst hh; simp at hne) (List.eq_nil_of_length_eq_zero h0)
-            rw [binActive_pair] at hnum hri
+            rw [binActive_pair] at hnum ⊢
             by_cases ha : pyIn a act = true <;> by_cases hb : pyIn b act = true
-            · left; simp only [ha, hb, if_true] at hri ⊢; exact ⟨by simpa using hri, trivial, trivial⟩
-            · right; left; simp only [ha, hb, if_true, if_false] at hri ⊢
-              exact ⟨rfl, trivial⟩
-            · right; right; simp only [ha, hb, if_true, if_false] at hri ⊢
-              exact ⟨rfl, trivial⟩
-            · simp only [ha, hb, if_false] at hnum
+            · left; simp [ha, hb]
+            · right; left; simp [ha, hb]
+            · right; right; simp [ha, hb]
+            · simp only [ha, hb] at hnum
               exact absurd hnum.symm hd
           · cases h
         · cases h
   · cases h
+
+/-- **binary decode gives a listed category**; out-of-range inputs are rejected -/
+theorem binary_decode_member {env : Env} {c : Consts} {choices : List Val}
+    {active : Option (List Val)} {r : BinRange} (h : mkBinary env c choices active = .ok r) (x : ℚ) :
+    (-c.eps ≤ x ∧ x ≤ 1 + c.eps → ∃ v, r.decode env c x = .ok v ∧ v ∈ choices) ∧
+    (¬ (-c.eps ≤ x ∧ x ≤ 1 + c.eps) → r.decode env c x = .error .assertion) := by
+  obtain ⟨hlen, hc, av, hri, _⟩ := mkBinary_ok h
+  have hd := int_decode_member hri x
+  unfold BinRange.decode
+  constructor
+  · intro hx
+    obtain ⟨k, hk, h0, h1⟩ := hd.1 hx
+    rw [hk, hc]
+    obtain ⟨v, hv, _, hm⟩ := choiceAt_ok (choices := choices) h0 (by omega)
+    exact ⟨v, hv, hm⟩
+  · intro hx
+    rw [hd.2 hx]
+
+theorem binary_encode_cube {env : Env} {c : Consts} {r : BinRange} {v : Val} {x : ℚ}
+    (h : r.encode env c v = .ok x) : 0 ≤ x ∧ x ≤ 1 := by
+  unfold BinRange.encode at h
+  split at h
+  · exact int_encode_cube h
+  · cases h
+
+/-- **binary round trip**: exact -/
+theorem binary_roundtrip {env : Env} {c : Consts} {choices : List Val}
+    {active : Option (List Val)} {r : BinRange} (h : mkBinary env c choices active = .ok r)
+    (hok : catsOk choices = true) (heps : 0 ≤ c.eps) (heps2 : c.eps ≤ 1 / 2) {v : Val} (hv : v ∈ choices) :
+    ∃ x, r.encode env c v = .ok x ∧ r.decode env c x = .ok v := by
+  obtain ⟨hlen, hc, av, hri, _⟩ := mkBinary_ok h
+  obtain ⟨i, hi, hci⟩ := index_member hok hv
+  have hlt := pyIndex_lt hi
+  obtain ⟨x, e1, e2⟩ := int_roundtrip hri heps heps2 (scaleOK_lin _ _ _) (k := (i : ℤ)) (by omega) (by omega)
+  refine ⟨x, ?_, ?_⟩
+  · unfold BinRange.encode; rw [hc, hi]; exact e1
+  · unfold BinRange.decode
+    rw [e2, hc]
+    unfold choiceAt
+    simp [hci]
+
+/-- **binary, active sub-range**: inside the bounds the decoded category is active -/
+theorem binary_active {env : Env} {c : Consts} {choices act : List Val} {r : BinRange}
+    (h : mkBinary env c choices (some act) = .ok r) (heps : 0 < c.eps)
+    {x : ℚ} (hx : r.rint.cont.bLo ≤ x ∧ x ≤ r.rint.cont.bHi) :
+    ∃ v, r.decode env c x = .ok v ∧ v ∈ choices ∧ pyIn v act = true := by
+  obtain ⟨hlen, hc, av, hri, hact⟩ := mkBinary_ok h
+  obtain ⟨a, b, hab⟩ : ∃ a b, choices = [a, b] := by
+    match choices, hlen with
+    | [a, b], _ => exact ⟨a, b, rfl⟩
+  obtain ⟨k, hk, hk0, hk1⟩ := int_active hri heps (scaleOK_lin _ _ _) hx
+  have hrng : (-c.eps ≤ x ∧ x ≤ 1 + c.eps) := by
+    by_contra hn
+    rw [(int_decode_member hri x).2 hn] at hk
+    cases hk
+  obtain ⟨k', hk', h0, h1⟩ := (int_decode_member hri x).1 hrng
+  rw [hk] at hk'
+  injection hk' with hk'
+  subst hk'
+  unfold BinRange.decode
+  rw [hk, hc, hab]
+  have hk01 : k = 0 ∨ k = 1 := by omega
+  rcases hact act rfl a b hab with ⟨_, ha, hb⟩ | ⟨hav, ha⟩ | ⟨hav, hb⟩
+  · rcases hk01 with rfl | rfl
+    · exact ⟨a, by simp [choiceAt], by simp, ha⟩
+    · exact ⟨b, by simp [choiceAt], by simp, hb⟩
+  · subst hav
+    simp only [Option.getD_some] at hk0 hk1
+    have : k = 0 := by omega
+    subst this
+    exact ⟨a, by simp [choiceAt], by simp, ha⟩
+  · subst hav
+    simp only [Option.getD_some] at hk0 hk1
+    have : k = 1 := by omega
+    subst this
+    exact ⟨b, by simp [choiceAt], by simp, hb⟩
+
+/-! ### ordinal-equal -/
+
+theorem zipAllEq_getElem {as bs : List Val} (h : zipAllEq as bs = true) (i : ℕ)
+    (ha : i < as.length) (hb : i < bs.length) : as[i].pyEq bs[i] = true := by
+  induction as generalizing bs i with
+  | nil => simp at ha
+  | cons a as ih =>
+    cases bs with
+    | nil => simp at hb
+    | cons b bs =>
+      simp only [zipAllEq, Bool.and_eq_true] at h
+      cases i with
+      | zero => simpa using h.1
+      | succ j =>
+        simp only [List.getElem_cons_succ]
+        exact ih h.2 j (by simpa using ha) (by simpa using hb)
+
+theorem firstPos_some {choices act : List Val} {fp : Option ℕ}
+    (h : firstPos choices (some act) = .ok fp) :
+    ∃ p, fp = some p ∧ act ≠ [] ∧ p < choices.length ∧ zipAllEq act (choices.drop p) = true := by
+  unfold firstPos at h
+  split at h
+  · cases h
+  · split at h
+    · rename_i heq; cases heq
+    · rename_i act' heq
+      injection heq with heq
+      subst heq
+      split at h
+      · cases h
+      · rename_i a0 rest
+        split at h
+        · rename_i p hp
+          split at h
+          · rename_i hz
+            injection h with h
+            exact ⟨p, h.symm, by simp, pyIndex_lt hp, hz⟩
+          · cases h
+        · cases h
+
+theorem firstPos_none {choices : List Val} {fp : Option ℕ}
+    (h : firstPos choices none = .ok fp) : fp = none ∧ choices ≠ [] := by
+  unfold firstPos at h
+  split at h
+  · cases h
+  · rename_i hne
+    injection h with h
+    exact ⟨h.symm, by intro hh; subst hh; simp at hne⟩
+
+theorem mkOrdEq_ok {env : Env} {c : Consts} {choices : List Val} {active : Option (List Val)}
+    {r : OrdEq} (h : mkOrdEq env c choices active = .ok r) :
+    r.choices = choices ∧ ∃ fp, firstPos choices active = .ok fp ∧
+      mkInt env c 0 ((choices.length : ℤ) - 1) .lin (fp.map Int.ofNat)
+        (fp.map (fun p => Int.ofNat p + Int.ofNat (active.getD []).length - 1)) = .ok r.rint := by
+  unfold mkOrdEq at h
+  split at h
+  · cases h
+  · rename_i fp hfp
+    dsimp only at h
+    split at h
+    · rename_i ri hri
+      injection h with h; subst h
+      exact ⟨rfl, fp, hfp, hri⟩
+    · cases h
+
+/-- **ordinal-equal decode gives a listed category**; out-of-range inputs are rejected -/
+theorem ordeq_decode_member {env : Env} {c : Consts} {choices : List Val}
+    {active : Option (List Val)} {r : OrdEq} (h : mkOrdEq env c choices active = .ok r) (x : ℚ) :
+    (-c.eps ≤ x ∧ x ≤ 1 + c.eps → ∃ v, r.decode env c x = .ok v ∧ v ∈ choices) ∧
+    (¬ (-c.eps ≤ x ∧ x ≤ 1 + c.eps) → r.decode env c x = .error .assertion) := by
+  obtain ⟨hc, fp, _, hri⟩ := mkOrdEq_ok h
+  have hd := int_decode_member hri x
+  unfold OrdEq.decode
+  constructor
+  · intro hx
+    obtain ⟨k, hk, h0, h1⟩ := hd.1 hx
+    rw [hk, hc]
+    obtain ⟨v, hv, _, hm⟩ := choiceAt_ok (choices := choices) h0 (by omega)
+    exact ⟨v, hv, hm⟩
+  · intro hx
+    rw [hd.2 hx]
+
+theorem ordeq_encode_cube {env : Env} {c : Consts} {r : OrdEq} {v : Val} {x : ℚ}
+    (h : r.encode env c v = .ok x) : 0 ≤ x ∧ x ≤ 1 := by
+  unfold OrdEq.encode at h
+  split at h
+  · exact int_encode_cube h
+  · cases h
+
+/-- **ordinal-equal round trip**: exact -/
+theorem ordeq_roundtrip {env : Env} {c : Consts} {choices : List Val}
+    {active : Option (List Val)} {r : OrdEq} (h : mkOrdEq env c choices active = .ok r)
+    (hok : catsOk choices = true) (heps : 0 ≤ c.eps) (heps2 : c.eps ≤ 1 / 2) {v : Val} (hv : v ∈ choices) :
+    ∃ x, r.encode env c v = .ok x ∧ r.decode env c x = .ok v := by
+  obtain ⟨hc, fp, _, hri⟩ := mkOrdEq_ok h
+  obtain ⟨i, hi, hci⟩ := index_member hok hv
+  have hlt := pyIndex_lt hi
+  obtain ⟨x, e1, e2⟩ := int_roundtrip hri heps heps2 (scaleOK_lin _ _ _) (k := (i : ℤ)) (by omega) (by omega)
+  refine ⟨x, ?_, ?_⟩
+  · unfold OrdEq.encode; rw [hc, hi]; exact e1
+  · unfold OrdEq.decode
+    rw [e2, hc]
+    unfold choiceAt
+    simp [hci]
+
+/-- **ordinal-equal, active sub-range**: inside the bounds the decoded category is one of the
+active ones -/
+theorem ordeq_active {env : Env} {c : Consts} {choices act : List Val} {r : OrdEq}
+    (h : mkOrdEq env c choices (some act) = .ok r) (heps : 0 < c.eps)
+    {x : ℚ} (hx : r.rint.cont.bLo ≤ x ∧ x ≤ r.rint.cont.bHi) :
+    ∃ v, r.decode env c x = .ok v ∧ v ∈ choices ∧ pyIn v act = true := by
+  obtain ⟨hc, fp, hfp, hri⟩ := mkOrdEq_ok h
+  obtain ⟨p, rfl, hne, hp, hz⟩ := firstPos_some hfp
+  obtain ⟨k, hk, hk0, hk1⟩ := int_active hri heps (scaleOK_lin _ _ _) hx
+  have hrng : (-c.eps ≤ x ∧ x ≤ 1 + c.eps) := by
+    by_contra hn
+    rw [(int_decode_member hri x).2 hn] at hk
+    cases hk
+  obtain ⟨k', hk', h0, h1⟩ := (int_decode_member hri x).1 hrng
+  rw [hk] at hk'
+  injection hk' with hk'
+  subst hk'
+  simp only [Option.map_some, Option.getD_some, Int.ofNat_eq_natCast] at hk0 hk1
+  unfold OrdEq.decode
+  rw [hk, hc]
+  obtain ⟨v, hv, hvi, hm⟩ := choiceAt_ok (choices := choices) h0 (by omega)
+  refine ⟨v, hv, hm, ?_⟩
+  -- v = choices[k], k = p + j with j < act.length, and act[j] == choices[p + j]
+  have hkn : k.toNat < choices.length := by omega
+  have hj1 : k.toNat - p < act.length := by omega
+  have hj2 : k.toNat - p < (choices.drop p).length := by simp; omega
+  have hze := zipAllEq_getElem hz (k.toNat - p) hj1 hj2
+  rw [List.getElem_drop] at hze
+  have hidx : p + (k.toNat - p) = k.toNat := by omega
+  rw [List.getElem?_eq_getElem hkn] at hvi
+  injection hvi with hvi
+  rw [pyIn_iff]
+  refine ⟨act[k.toNat - p], List.getElem_mem _, ?_⟩
+  rw [← hvi]
+  simpa [hidx] using hze
 
 end SyneTune.Dom
